@@ -109,7 +109,7 @@ ApiOfCall(pre, l, c) ==
     IF c \in DOMAIN pre.calls THEN pre.calls[c]
     ELSE CallRec(l.ev.api, 0, l.ev.qos, <<>>, "")   \* returned within the step of its own begin
 
-Judge(pre, l, cand) ==
+JudgeFull(pre, l, cand) ==
     LET r     == cand.r
         post  == r.s
         obsO  == NormSeq([k \in DOMAIN l.out |-> ObsPk(l.out[k])])
@@ -203,6 +203,15 @@ Judge(pre, l, cand) ==
     IN IF l.ev.t = "End" THEN sigEnd
        ELSE sigOut \cup sigOutGap \cup sigRet \cup sigRetGap \cup sigCb \cup sigEnd
 
+(* fast path: a line on which nothing was expected and nothing was observed *)
+Judge(pre, l, cand) ==
+    IF /\ l.out = <<>> /\ l.rets = <<>> /\ l.cbs = <<>> /\ cand.r.out = <<>> /\ cand.r.rets = {}
+       /\ cand.missed.out = <<>> /\ cand.missed.rets = {} /\ ~cand.r.deliv.on
+       /\ l.ev.t \notin {"PreEnd", "End"} /\ ~cand.r.s.ended
+       /\ \A c \in DOMAIN cand.r.s.calls : cand.r.s.calls[c].dl >= 0
+    THEN {}
+    ELSE JudgeFull(pre, l, cand)
+
 (* state after the line: calls that returned (bound from the trace) are removed *)
 After(cand, l) ==
     LET done == {l.rets[k].call : k \in DOMAIN l.rets}
@@ -233,7 +242,8 @@ TInit == /\ s = InitState(Cfg0)
 
 Best(cs, pre, l) ==
     \* a candidate without any finding if there is one, else any (deterministic choice)
-    IF \E c \in cs : Judge(pre, l, c) = {} THEN CHOOSE c \in cs : Judge(pre, l, c) = {}
+    IF Cardinality(cs) = 1 THEN CHOOSE c \in cs : TRUE
+    ELSE IF \E c \in cs : Judge(pre, l, c) = {} THEN CHOOSE c \in cs : Judge(pre, l, c) = {}
     ELSE CHOOSE c \in cs : TRUE
 
 TNext ==
